@@ -391,6 +391,19 @@ pub fn c01_families(tier: &str) -> Vec<SeqSpec> {
     av.extend(reopen_ops(2));
     v.push(spec("F-varint", &["M2b", "T300n"], vec![vec![b'k'; 127], vec![b'k'; 128], vec![b'k'; 16384]], av.clone(), if t { 4 } else { 3 }, READS));
     v.push(spec("F-varint/flush", &["T300", "T300n"], vec![vec![b'k'; 127], vec![b'k'; 128], vec![b'k'; 16384]], av, if t { 4 } else { 3 }, READS).flush());
+    // WAL records that end 7 / 6 bytes before the end of a log block, followed by further writes
+    // and reopens with and without log reuse
+    v.push(
+        spec(
+            "F-wal-block-edge",
+            &["D", "Dn"],
+            k3(),
+            vec![Op::Put(0, 9), Op::Put(0, 10), Op::Put(0, 0), Op::Put(1, 0), Op::Del(0), Op::Reopen(0), Op::Reopen(1)],
+            if t { 6 } else { 4 },
+            READS,
+        )
+        .lazy(),
+    );
     // a WAL written with a large memtable budget, replayed with a small one: the recovery itself
     // has to flush several memtables while reading the log
     v.push(
@@ -534,6 +547,9 @@ pub fn c07(tier: &str) -> ! {
     fams.push(rich_family("C07-rich/T300", k3(), a_c07_small(), if t { 5 } else { 3 }, ck));
     fams.push(levels_family("C07-levels/L", "L", k4(), a_c07_small(), if t { 4 } else { 3 }, ck));
     fams.push(staggered_family("C07-staggered/T300", if t { 5 } else { 3 }, ck));
+    // live snapshots over 1-byte files: every version of a key gets a file of its own, so the
+    // versions of one user key straddle neighbouring files of a level
+    fams.push(spec("C07-snap/T1", &["T1"], k2(), a_c03_small(), if t { 7 } else { 5 }, ck).flush());
     // the extreme byte-string keys (empty, 0x00, 0xff) through deletes and ranged compactions
     fams.push(spec("C07-bytes/T300", &["T300"], vec![vec![], vec![0x00], vec![0xff]], a_c07_small(), if t { 5 } else { 3 }, ck).flush());
     fams.push(l0_overlap_family("C07-l0-overlap-low/T300", true, if t { 4 } else { 3 }, ck));
@@ -712,6 +728,9 @@ pub fn c09_seq_families(tier: &str) -> Vec<SeqSpec> {
     // live snapshots: compactions keep several versions of one key and cut output files between them
     fams.push(spec("C09-snap/T300", &["T300"], k2(), a_c03_small(), if t { 7 } else { 5 }, ck).flush());
     fams.push(spec("C09-snap/T1", &["T1"], k2(), a_c03_small(), if t { 7 } else { 5 }, ck).flush());
+    // misaligned file boundaries on neighbouring levels + single-key range compactions
+    fams.push(staggered_family("C09-staggered/T300", if t { 5 } else { 3 }, ck));
+    fams.push(l0_overlap_family("C09-l0-overlap-low/T300", true, if t { 4 } else { 2 }, ck));
     if t {
         fams.push(spec("C09-A1/M2", &["M2"], k3(), a1(), 7, ck).bgfirst());
     }
